@@ -24,7 +24,7 @@ from wire.container import pcapng_bytes
 def inputs(seed, quick):
     rng = random.Random(seed)
     out = []
-    for name in (list(c04.CONCRETE) if not quick else ["two quic, empty cids, same client host", "three quic: empty, one-byte and two-byte cids",
+    for name in (list(c04.CONCRETE) if not quick else ["two quic, empty cids, same client host", "quic whose new cid extends its old cid (prefix within one side)", "three quic: empty, one-byte and two-byte cids",
                                                         "mixed: 2 tls (v4/v6 same host numbers) + 2 quic", "two quic, prefix-related client cids"]):
         conns = [c04.build_one(cd, i, seed + i) for i, cd in enumerate(c04.CONCRETE[name])]
         order = [i + 1 for i, c in enumerate(conns) for _ in c["frames"]]
